@@ -123,9 +123,9 @@ Paths(T, src, dst) ==
         \* peering: entry i of the up segment and entry j of the down segment are the two ends of
         \* one peering link
         UpPeers == {<<b, i, e>> \in Ups \X (1..MaxLen) \X T.ends :
-                        i <= N(b) /\ i > 1 /\ e.lt = "peer" /\ e.as = EAs(b, i)}
+                        i <= N(b) /\ e.lt = "peer" /\ e.as = EAs(b, i)}
         DownPeers == {<<b, j, e>> \in Downs \X (1..MaxLen) \X T.ends :
-                        j <= N(b) /\ j > 1 /\ e.lt = "peer" /\ e.as = EAs(b, j)}
+                        j <= N(b) /\ e.lt = "peer" /\ e.as = EAs(b, j)}
         peering == {<<UpPart(x[1][1], x[1][2], x[1][3]["if"]), DownPart(x[2][1], x[2][2], x[2][3]["if"])>> :
                       x \in {y \in UpPeers \X DownPeers :
                                 y[1][3].pas = y[2][3].as /\ y[1][3].pif = y[2][3]["if"]}}
